@@ -36,6 +36,22 @@ def make_case(rng, c, allow_all_outlier=False):
     scores = ["real", "synthetic"][c % 2]
     results = tracegen.make_trace(rng, data, samples, n_chains, lens, forests, scores=scores, tie_prob=0.3,
                                   chain_order=[int(x) for x in order])
+    if c % 4 == 3 and n >= 3:
+        # two *distinct* trees of the same shape and labelling (only the data sit in different clones), the same
+        # number of times, with exactly tied scores: rows that agree in Newick string, count and score
+        perm = list(range(n))
+        perm[0], perm[1] = perm[1], perm[0]
+        base = gen.AForest([[i] for i in range(n)], [None] + list(range(n - 1)))
+        twin = gen.AForest([[perm[i]] for i in range(n)], [None] + list(range(n - 1)))
+        tie = -3.25
+        k = int(rng.integers(1, 3))
+        for f in (base, twin):
+            for _ in range(k):
+                e = tracegen.make_trace(rng, data, samples, 1, 1, [f], scores="synthetic")[0]["trace"][0]
+                e["tree"] = gen.build_tree(f, data)[0].to_dict()
+                e["log_p_one"] = tie
+                ch = int(rng.choice(list(results.keys())))
+                results[ch]["trace"].append(e)
     # readers take data / samples / clusters from chain 0: it must exist (it always does in a run)
     return data, samples, results, {"n": n, "D": D, "chains": n_chains, "insertion_order": [int(x) for x in order],
                                     "lens": lens, "scores": scores, "distinct_forests": k}
@@ -50,10 +66,24 @@ def trace_task(task):
     try:
         for c in range(task["count"]):
             rng = np.random.default_rng([task["seed"], task["shard"], c, 11])
-            data, samples, results, desc = make_case(rng, c)
+            if c == 0 and task.get("real", True):
+                # a trace written by the real writer from real chain runs (unclustered input, string ids)
+                import gzip
+                import pickle
+                from checks.c20 import build_trace
+
+                path = build_trace(task["seed"] * 100 + task["shard"], 1 + task["shard"] % 3, False, tmp, iters=12)
+                with gzip.GzipFile(path, "rb") as fh:
+                    results = pickle.load(fh)
+                data, samples = results[0]["data"], results[0]["samples"]
+                desc = {"n": len(data), "D": len(samples), "chains": len(results), "insertion_order": list(results.keys()),
+                        "lens": [len(r["trace"]) for r in results.values()], "scores": "real-run", "distinct_forests": None}
+                part.count("real_run_traces")
+            else:
+                data, samples, results, desc = make_case(rng, c)
+                path = os.path.join(tmp, "trace.pkl.gz")
+                tracegen.write_trace(results, path)
             case = dict(desc, seed=task["seed"], shard=task["shard"], case=c)
-            path = os.path.join(tmp, "trace.pkl.gz")
-            tracegen.write_trace(results, path)
             summ, total, best = tracegen.reference_summary(results)
             part.count("evaluations")
             part.count("entries", total)
